@@ -160,7 +160,29 @@ def lazyAccept (shape : Nat) (k t : List Nat) : String :=
   | _ => showAccept (TopN.acceptPair (TopN.acceptPair lazyLeaf lazyLeaf) (TopN.acceptPair lazyLeaf lazyLeaf)
       ((g k 0, g k 1), (g k 2, g k 3)) ((g t 0, g t 1), (g t 2, g t 3)))
 
+/-- the same on the optional keys themselves, every component under the comparator its `Order`
+turns into (`ofOrder`): `n` = None -/
+def optList (s : String) : Option (List (Option Nat)) :=
+  (s.splitOn ",").mapM fun t => if t == "n" then some none else t.toNat?.map some
+
+def lazyAccept2 (shape : Nat) (asc : List Bool) (k t : List (Option Nat)) : String :=
+  let g (l : List (Option Nat)) (i : Nat) : Option Nat := l.getD i none
+  let leaf (i : Nat) : Option Nat → Option Nat → Option (Ordering × Option Nat) :=
+    TopN.acceptLeaf (TopN.ofOrder (asc.getD i false) (fun a b : Nat => compare a b))
+  match shape with
+  | 0 => showAccept (TopN.acceptPair (leaf 0) (TopN.acceptPair (leaf 1) (leaf 2)) (g k 0, (g k 1, g k 2)) (g t 0, (g t 1, g t 2)))
+  | 1 | 3 => showAccept (TopN.acceptPair (leaf 0) (TopN.acceptPair (leaf 1) (TopN.acceptPair (leaf 2) (leaf 3)))
+      (g k 0, (g k 1, (g k 2, g k 3))) (g t 0, (g t 1, (g t 2, g t 3))))
+  | 2 => showAccept (TopN.acceptPair (TopN.acceptPair (leaf 0) (TopN.acceptPair (leaf 1) (leaf 2))) (leaf 3)
+      ((g k 0, (g k 1, g k 2)), g k 3) ((g t 0, (g t 1, g t 2)), g t 3))
+  | _ => showAccept (TopN.acceptPair (TopN.acceptPair (leaf 0) (leaf 1)) (TopN.acceptPair (leaf 2) (leaf 3))
+      ((g k 0, g k 1), (g k 2, g k 3)) ((g t 0, g t 1), (g t 2, g t 3)))
+
 def handle : List String → String
+  | ["lazyacc2", shape, asc, keys, thr] =>
+    match shape.toNat?, optList keys, optList thr with
+    | some sh, some k, some t => lazyAccept2 sh (asc.toList.map (· == '1')) k t
+    | _, _, _ => "bad-op"
   | ["lazyacc", shape, keys, thr] =>
     match shape.toNat?, natList keys, natList thr with
     | some sh, some k, some t => lazyAccept sh k t
